@@ -120,6 +120,32 @@ func ruleMultiplicity(r *Run) {
 			if len(hops) == 0 || len(fn.Blocks) == 0 {
 				continue
 			}
+			// a chain function that can reach itself again (directly or through other chain
+			// functions) sends once per level of the recursion
+			if cyc := chainCycle(r, fn, chain); cyc != "" {
+				r.Bad("R12a.once", fnName(fn), "send-chain function re-enters itself", r.P.pos(fn.Pos()), "a function of the downstream send chain calls itself again ("+cyc+"): each level of the recursion sends the request once more — a retry without a loop; a mutation the service already executed is delivered again")
+			}
+			// no hop is entered on the failure side of another hop: whatever its name, a send
+			// that is made because the previous one failed is a second attempt
+			for _, hop := range hops {
+				for site := range hop {
+					errv := errorOfCall(site)
+					if errv == nil {
+						continue
+					}
+					for _, t := range failureTests(errv) {
+						after := blockReach(t.fail)
+						after[t.fail] = true
+						for _, other := range hops {
+							for s2 := range other {
+								if s2 != site && after[s2.Block()] {
+									r.Bad("R12a.once", fnName(fn), "send after a failed send", r.P.pos(s2.Pos()), "this call into the downstream send chain can run after "+calleeDesc(site.(ssa.CallInstruction).Common())+" has failed (it lies on the failure side of its error test): a fallback or second chance re-sends a batch the service may already have executed — mutations are applied twice and the first failure is hidden")
+								}
+							}
+						}
+					}
+				}
+			}
 			max, cyclic, nSites := 0, false, 0
 			for _, hop := range hops {
 				m, c := maxHopsOnPath(fn, hop)
@@ -154,12 +180,32 @@ func ruleMultiplicity(r *Run) {
 				}
 				n++
 				site := r.P.pos(e.Site.Pos())
-				key := shortPkg(topFn(e.Caller).Pkg.Pkg.Path()) + " | " + cn
+				pkg := shortPkg(topFn(e.Caller).Pkg.Pkg.Path())
+				key := pkg + " | " + cn
+				// a function value handed to somebody else: how often it runs is decided there
+				if e.Kind == "extarg" {
+					lib := calleeDesc(e.Site.Common())
+					r.Bad(rule, fnName(e.Caller), "hands "+cn+" to "+lib, site, "a step of the downstream send chain is handed to a library function ("+lib+") that decides how often, in which order and on which goroutine it runs: the sends are no longer one after the other and no longer stop at the first failure (every upload goes out although an earlier one failed), or are repeated")
+					continue
+				}
+				if e.Kind == "hoarg" {
+					if once, why := r.hofCallsOnce(e); !once {
+						r.Bad(rule, fnName(e.Caller), "calls "+cn, site, "a step of the downstream send chain is handed to a helper that can run it more than once ("+why+"): the same request is sent again after a failure — a mutation the service already executed is delivered twice")
+						continue
+					}
+				}
 				if !inAnyLoop(e.Site.Block()) {
 					r.OK(rule, fnName(e.Caller), "calls "+cn, site, "call site is not inside any loop of its function: executed at most once per invocation")
 				} else if ent, ok := loopsAllowed[key]; ok && loopsAllowedUsed[r.Property+key] < ent.N {
 					loopsAllowedUsed[r.Property+key]++
 					r.Tabled(rule, fnName(e.Caller), "calls "+cn, site, "loopsAllowed", ent.Reason)
+				} else if below := loopedBelow(r, callee, chain, rs[1], pkg); len(below) > 0 && creditsLeft(r, below) {
+					// the body of a confirmed loop was moved into this callee: the loop is
+					// charged to the confirmed callees that every path to the network passes
+					for _, k := range below {
+						loopsAllowedUsed[r.Property+k]++
+					}
+					r.Tabled(rule, fnName(e.Caller), "calls "+cn, site, "loopsAllowed", "every path from "+cn+" to the network goes through "+strings.Join(below, ", ")+": "+loopsAllowed[below[0]].Reason)
 				} else {
 					r.Bad(rule, fnName(e.Caller), "calls "+cn, site, "a step of the downstream send chain is called from inside a loop: the same request can be sent more than once (retry) or once per list entry instead of once per batch")
 				}
@@ -1200,4 +1246,185 @@ func loadsStoredField(v, obj ssa.Value, field string, st *ssa.Store) bool {
 	}
 	sfa, ok := st.Addr.(*ssa.FieldAddr)
 	return ok && sfa.X == obj && instrDominates(st, ld)
+}
+
+// errorOfCall: the error value a call yields (nil if it has none).
+func errorOfCall(site ssa.Instruction) ssa.Value {
+	c, ok := site.(*ssa.Call)
+	if !ok {
+		return nil
+	}
+	if isErrorish(c.Type()) {
+		return c
+	}
+	if c.Referrers() != nil {
+		for _, ref := range *c.Referrers() {
+			if ex, ok := ref.(*ssa.Extract); ok && isErrorish(ex.Type()) {
+				return ex
+			}
+		}
+	}
+	return nil
+}
+
+// chainCycle: fn reaches itself through calls between send-chain functions; the cycle is
+// described, "" if there is none.
+func chainCycle(r *Run, fn *ssa.Function, chain map[*ssa.Function]bool) string {
+	seen := map[*ssa.Function]bool{}
+	var walk func(f *ssa.Function, path []string) string
+	walk = func(f *ssa.Function, path []string) string {
+		for _, e := range r.P.CG.Out[f] {
+			if e.Kind == "param" || !chain[e.Callee] {
+				continue
+			}
+			if e.Callee == fn {
+				return strings.Join(append(path, fnName(fn)), " → ")
+			}
+			if seen[e.Callee] {
+				continue
+			}
+			seen[e.Callee] = true
+			if c := walk(e.Callee, append(path, fnName(e.Callee))); c != "" {
+				return c
+			}
+		}
+		return ""
+	}
+	return walk(fn, []string{fnName(fn)})
+}
+
+// hofAllowed: module helpers that run the function they are given once per element of a
+// collection; their call sites are judged like a direct call.
+var hofAllowed = map[string]string{
+	"common.AsyncMapReduce": "the fan-out helper calls its mapper exactly once per input element (protocol R1): a fan-out over distinct elements, not a repetition",
+}
+
+// hofCallsOnce: e hands the function e.Callee to a module helper (a "hoarg" edge); the helper
+// calls that parameter at most once per invocation — not in a loop, not twice on a path, not
+// from a recursion, and it does not put it aside.
+func (r *Run) hofCallsOnce(e *Edge) (bool, string) {
+	var hs []*ssa.Function
+	for _, e2 := range r.P.CG.Out[e.Caller] {
+		if e2.Site == e.Site && (e2.Kind == "static" || e2.Kind == "invoke" || e2.Kind == "dynamic") {
+			hs = append(hs, e2.Callee)
+		}
+	}
+	if len(hs) == 0 {
+		return false, "the helper it is handed to could not be resolved"
+	}
+	for _, h := range hs {
+		if _, ok := hofAllowed[fnName(h)]; ok {
+			continue
+		}
+		found := false
+		for i, a := range e.Site.Common().Args {
+			if _, isSig := a.Type().Underlying().(*types.Signature); !isSig || i >= len(h.Params) {
+				continue
+			}
+			fs, _ := r.P.CG.funcValues(a, map[ssa.Value]bool{})
+			for _, f := range fs {
+				if origin(f) == e.Callee {
+					found = true
+					if once, why := paramCalledOnce(r, h, i, map[*ssa.Function]bool{}); !once {
+						return false, why
+					}
+				}
+			}
+		}
+		if !found {
+			return false, "the argument position in " + fnName(h) + " could not be resolved"
+		}
+	}
+	return true, ""
+}
+
+func paramCalledOnce(r *Run, h *ssa.Function, idx int, busy map[*ssa.Function]bool) (bool, string) {
+	if busy[h] {
+		return false, fnName(h) + " passes it to itself again (recursion)"
+	}
+	busy[h] = true
+	defer delete(busy, h)
+	if idx >= len(h.Params) || len(h.Blocks) == 0 {
+		return false, fnName(h) + " has no body"
+	}
+	p := h.Params[idx]
+	sites := map[ssa.Instruction]bool{}
+	for _, ref := range *p.Referrers() {
+		switch x := ref.(type) {
+		case *ssa.DebugRef:
+		case *ssa.Call:
+			if x.Call.Value == ssa.Value(p) {
+				sites[x] = true
+				continue
+			}
+			g := x.Call.StaticCallee()
+			if g == nil || x.Call.IsInvoke() || !inModule(g) {
+				return false, fnName(h) + " hands it on to " + calleeDesc(&x.Call)
+			}
+			for j, a := range x.Call.Args {
+				if a == ssa.Value(p) {
+					if once, why := paramCalledOnce(r, r.P.declared(g), j, busy); !once {
+						return false, why
+					}
+				}
+			}
+			sites[x] = true
+		default:
+			return false, fmt.Sprintf("%s keeps it for later (%s)", fnName(h), strings.TrimPrefix(fmt.Sprintf("%T", ref), "*ssa."))
+		}
+	}
+	for s := range sites {
+		if inAnyLoop(s.Block()) {
+			return false, fnName(h) + " calls it inside a loop"
+		}
+	}
+	if len(sites) > 0 {
+		if max, cyclic := maxHopsOnPath(h, sites); max > 1 || cyclic {
+			return false, fmt.Sprintf("%s calls it up to %d times on one path", fnName(h), max)
+		}
+	}
+	return true, ""
+}
+
+// loopedBelow: the confirmed looped callees (keys of loopsAllowed for pkg) that every call
+// path from fn to the sink passes through; nil if some path avoids them.
+func loopedBelow(r *Run, fn *ssa.Function, chain map[*ssa.Function]bool, sink, pkg string) []string {
+	var keys []string
+	seen := map[*ssa.Function]bool{fn: true}
+	work := []*ssa.Function{fn}
+	for len(work) > 0 {
+		f := work[len(work)-1]
+		work = work[:len(work)-1]
+		for _, x := range r.P.CG.Ext[f] {
+			if x.Name == sink {
+				return nil
+			}
+		}
+		for _, e := range r.P.CG.Out[f] {
+			if e.Kind == "param" || !chain[e.Callee] || seen[e.Callee] {
+				continue
+			}
+			seen[e.Callee] = true
+			k := pkg + " | " + fnName(e.Callee)
+			if _, ok := loopsAllowed[k]; ok {
+				if inAnyLoop(e.Site.Block()) {
+					return nil // looped again below: judged (and charged) at that site
+				}
+				keys = append(keys, k)
+				continue
+			}
+			work = append(work, e.Callee)
+		}
+	}
+	sort.Strings(keys)
+	return keys
+}
+
+func creditsLeft(r *Run, keys []string) bool {
+	for _, k := range keys {
+		if loopsAllowedUsed[r.Property+k] >= loopsAllowed[k].N {
+			return false
+		}
+	}
+	return true
 }
